@@ -34,6 +34,9 @@ func ruleC07(r *Report) {
 	checkEscape(r, p, "C07.escape", func(fn *ssa.Function) bool {
 		return fn.Signature.Recv() != nil && (isMethodOf(fn, "IdpAuthnRequest") || isMethodOf(fn, "IdentityProvider")) || isElementSerialiser(p, fn)
 	})
+	// the request leg of the round trip: the IdP does not turn away what this library's SP sends (C05.accept, borrowed)
+	r.Rule("C07.request-leg", "the IdP's validator accepts a fresh, well-addressed request from a registered SP, signed or not, over either binding (the accept scenarios of C05, borrowed): without that no response is produced for the configuration", 1)
+	borrowAccept(r, "C07.request-leg")
 }
 
 type builder struct {
@@ -408,6 +411,11 @@ func checkBuilders(r *Report, p *Prog) {
 					if strings.HasSuffix(ar, "."+fname) || strings.Contains(ar, "."+fname+".") || strings.Contains(ar, "."+fname+"[") {
 						mine = true
 					}
+				}
+				// a test *of* the field is its emptiness (empty / nil / zero instant / a boolean / a length), not a predicate
+				// computed from its content: "emit InResponseTo only when it is an NCName" drops values the reader would take
+				if mine && ai.Kind == "call" && len(ai.Args) > 0 && !strings.HasSuffix(ai.Args[0], ".IsZero") {
+					mine = false
 				}
 				if !mine {
 					foreign = append(foreign, nm)
